@@ -1226,7 +1226,11 @@ func (vc *VC) applyAts(s ast.Stmt, st *State) {
 		t := vc.specBool(env, a.Clause.Expr)
 		switch a.Kind {
 		case "assert":
-			vc.oblige(st, "assert", nil, fmt.Sprintf("at %s#%d:%s", clip(a.Snippet), a.Occur, clip(a.Clause.Text)), t)
+			label := clip(a.Clause.Text)
+			if a.Clause.Tag != "" {
+				label = "[" + a.Clause.Tag + "]"
+			}
+			vc.oblige(st, "assert", nil, fmt.Sprintf("at %s#%d:%s", clip(a.Snippet), a.Occur, label), t)
 			vc.assumeAt(st, t)
 		case "assume":
 			vc.assumeAt(st, t)
